@@ -108,21 +108,26 @@ def validate(traces, proj, wd, name="gw", timeout=1200):
         out = []
         for tidx, upto in sorted(rej.items()):
             tr = ts[tidx - 1]
-            # diagnosis run on this single trace
-            dpath = os.path.join(wd, f"{tag}_diag{tidx}.ndjson")
-            with open(dpath, "w", encoding="utf-8") as fh:
-                fh.write(json.dumps(_clean({"ev": tr["ev"]}), ensure_ascii=True) + "\n")
-            dcfg = os.path.join(wd, f"{tag}_diag{tidx}.cfg")
-            _cfg(dcfg, ver, fl, proj, True)
-            d = tlc.run("GatewayTrace", dcfg, workdir=os.path.join(wd, f"{tag}_d{tidx}"), workers=1, deque=True,
-                        env={"TRACE_FILE": dpath}, timeout=600)
-            clauses = []
-            for m in re.finditer(r'<<"CLAUSE", \d+, (\d+), "(\w+)">>', d.out):
-                clauses.append((int(m.group(1)), m.group(2)))
-            # only the clauses that fail for EVERY choice at the rejected event matter; with Diag all
-            # choices print, so keep the names printed at that index (a clause passing for some
-            # choice may still be listed: the list is a hint, the verdict is the rejection itself)
-            names = sorted({c[1] for c in clauses if c[0] == upto}) or ["action-not-enabled"]
+            # diagnosis run on this single trace: a hint only - the verdict is the rejection itself, so a diagnosis that
+            # fails or takes too long (a diverged trace can branch widely with Diag on) must not hide it
+            names = ["(not diagnosed)"]
+            if len(out) < 4:
+                dpath = os.path.join(wd, f"{tag}_diag{tidx}.ndjson")
+                with open(dpath, "w", encoding="utf-8") as fh:
+                    fh.write(json.dumps(_clean({"ev": tr["ev"][:upto]}), ensure_ascii=True) + "\n")
+                dcfg = os.path.join(wd, f"{tag}_diag{tidx}.cfg")
+                _cfg(dcfg, ver, fl, proj, True)
+                try:
+                    d = tlc.run("GatewayTrace", dcfg, workdir=os.path.join(wd, f"{tag}_d{tidx}"), workers=1, deque=True,
+                                env={"TRACE_FILE": dpath}, timeout=150)
+                    clauses = []
+                    for m in re.finditer(r'<<"CLAUSE", \d+, (\d+), "(\w+)">>', d.out):
+                        clauses.append((int(m.group(1)), m.group(2)))
+                    # with Diag all choices print, so keep the names printed at the rejected index (a clause passing for some
+                    # choice may still be listed)
+                    names = sorted({c[1] for c in clauses if c[0] == upto}) or ["action-not-enabled"]
+                except tlc.MachineryError:
+                    pass
             out.append({"trace": tr, "index": upto, "clauses": names, "diag_index": upto})
         return r, out
 
